@@ -76,7 +76,7 @@ def execute(case, stats):
         except Exception as e:
             import traceback
 
-            V("load-exception", "full-load", {"error": f"{type(e).__name__}: {e}"[:300], "tb": traceback.format_exc()[-500:]})
+            V("load-exception", "full-load", {"error": core.scrub(f"{type(e).__name__}: {e}")[:300], "tb": core.scrub(traceback.format_exc())[-500:]})
             return res
         stats.inc("steps.files_opened", len(seam.trace))
         nl = len({c["level"] for c in w.leaves()})
